@@ -9,7 +9,7 @@
 (*   - the grid a CSV export must denote (Grid, Field, Trim),              *)
 (*   - an RFC-4180 reader as a character-level state machine (PInit,       *)
 (*     PStep, PEnd) and as a fold over a whole text (ParseAll),            *)
-(*   - the state machine: build a workbook (SetCell, SetActive), start an  *)
+(*   - the state machine: build a workbook (SetCell, RemoveCell, SetActive), start an  *)
 (*     export (Begin), the writer of the intended design emitting one      *)
 (*     character per step into the reader (EmitOpen .. EmitNewline), the   *)
 (*     end of the text (Finish), the encoding step (Encode, bytes as a     *)
@@ -52,6 +52,8 @@ MinOf0(S) == CHOOSE x \in S : \A y \in S : x <= y
 EmptySheet == << >>                 \* the function with empty domain
 Post_SetCell(sh, r, c, t) ==
   [p \in (DOMAIN sh) \cup {<<r, c>>} |-> IF p = <<r, c>> THEN t ELSE sh[p]]
+
+Post_RemoveCell(sh, r, c) == [p \in (DOMAIN sh) \ {<<r, c>>} |-> sh[p]]
 
 Used(sh)       == {p \in DOMAIN sh : sh[p] # << >>}
 MaxUsedRow(sh) == IF Used(sh) = {} THEN 0 ELSE MaxOf({p[1] : p \in Used(sh)})
@@ -160,6 +162,16 @@ SetCell(s, r, c, t) ==
   /\ hist' = Log([a |-> "SetCell", s |-> s, r |-> r, c |-> c, v |-> t])
   /\ UNCHANGED <<active, pc, opt, w, out, ps, enc, bytes>>
 
+(* removing a cell: the grid shrinks to what is still used (a missing cell: nothing happens) *)
+Post_BookRemoveCell(b, s, r, c) == [b EXCEPT ![s] = Post_RemoveCell(b[s], r, c)]
+
+RemoveCell(s, r, c) ==
+  /\ pc = "build"
+  /\ <<r, c>> \in DOMAIN book[s]
+  /\ book' = Post_BookRemoveCell(book, s, r, c)
+  /\ hist' = Log([a |-> "RemoveCell", s |-> s, r |-> r, c |-> c])
+  /\ UNCHANGED <<active, pc, opt, w, out, ps, enc, bytes>>
+
 SetActive(s) ==
   /\ pc = "build" /\ s # active
   /\ active' = s
@@ -241,6 +253,7 @@ FinishFree ==
 
 Next ==
   \/ \E s \in 1..NSheets, r \in 1..MaxR, c \in 1..MaxC, t \in Values : SetCell(s, r, c, t)
+  \/ \E s \in 1..NSheets, r \in 1..MaxR, c \in 1..MaxC : RemoveCell(s, r, c)
   \/ \E s \in 1..NSheets : SetActive(s)
   \/ \E tr \in BOOLEAN, q \in WrapChars : Begin([trim |-> tr, wrap |-> q])
   \/ EmitOpen \/ EmitChar \/ EmitDoubled \/ EmitClose \/ EmitComma \/ EmitNewline \/ Finish
